@@ -264,6 +264,13 @@ def path_agreement(ctx, P, py, rule="NEWICK-PATHS"):
     ctx.ob(rule, "nexus|taxlabels", "' '.join((f'n{u}' for u in ts.samples()))" in nx, tm.loc(py.func("text_formats", "write_nexus")), "TAXLABELS list every sample as n<id>")
     ctx.ob(rule, "nexus|tree-label", "tree.interval.left" in nx and "tree.interval.right" in nx and "f't{start_interval}^{end_interval}'" in nx, tm.loc(py.func("text_formats", "write_nexus")), "trees named t<left>^<right>")
     ctx.ob(rule, "nexus|newick", "tree.as_newick(precision=time_precision)" in nx, tm.loc(py.func("text_formats", "write_nexus")), "same as_newick strings")
+    # the DATA block is on by default whenever there are SITES (a site without mutations still has a column: the ancestral state)
+    wn = py.func("text_formats", "write_nexus")
+    dflt = [a for a in ast.walk(wn) if isinstance(a, ast.Assign) and any(isinstance(t, ast.Name) and t.id == "include_alignments" for t in a.targets)]
+    okd = bool(dflt) and all("num_sites" in ast.unparse(a.value) and "num_mutations" not in ast.unparse(a.value) for a in dflt)
+    ctx.ob(rule, "nexus|default-alignments", okd, tm.loc(dflt[0] if dflt else wn),
+           "alignments are included by default when the tree sequence has sites" if okd else
+           "the default for include_alignments is `%s`: it must depend on num_sites, not on mutations" % (ast.unparse(dflt[0].value)[:60] if dflt else "?"))
     wt = ast.unparse(py.func("text_formats", "wrap_text"))
     ok = "yield text[offset:offset + width]" in wt and "offset += width" in wt and "if offset != len(text):" in wt and "yield text[offset:]" in wt \
         and "N = len(text) // width" in wt and "width = len(text) if width == 0 else width" in wt
